@@ -292,8 +292,14 @@ func (r *TaskRunner) checkTaskCondition(t *task.Task, executionContext *Executio
 		return false, err
 	}
 
-	_, err = exec.Execute(context.Background(), job)
+	// the condition is a command of the run like any other: a cancellation ends it too. A condition that was
+	// interrupted has not been evaluated - whatever it exits with, the task did not run, which is an error, not a skip
+	_, err = exec.Execute(r.ctx, job)
 	if err != nil {
+		if ctxErr := r.ctx.Err(); ctxErr != nil {
+			return false, ctxErr
+		}
+
 		if _, ok := executor.IsExitStatus(err); ok {
 			return false, nil
 		}
